@@ -12,11 +12,14 @@ operation is the Python operation (str, +, bool, iter, getattr / getitem), never
 Extended program syntax (superset of scope_gen's):
   ('for', target, it, test, body, els[, recursive])   target: name or [names]
   ('set', target, e)                                   target: name or [names]   e may be ('tup', [e..])
-  ('setb', x, body[, filt])                            filt: 'u' | 'l' | ('default', e)
+  ('setb', x, body[, filt])                            filt: 'u' | 'l' | ('default', e) | ('rep', e)
+  ('filt', filt, body)                                 filt as above: {% filter replace('', e) %}
   ('break',) ('continue',) ('loopcall', e)             {% break %} {% continue %} {{ loop(e) }}
   expr ('attr', 'loop', a)  a in index index0 first last length revindex
 """
 from __future__ import annotations
+
+import re
 
 from . import scope_gen as G
 
@@ -61,13 +64,36 @@ class RMacro:
 
 
 class RLoop:
-    def __init__(self, items, rec=None):
-        self.items, self.i, self.rec = items, 0, rec
+    """the special variable `loop`: items are pulled one at a time; length / last / revindex look ahead"""
+    def __init__(self, source, rec=None):
+        self.source, self.buf, self.i, self.rec, self.done = source, [], -1, rec, False
+
+    def pull(self):
+        if self.buf:
+            return True, self.buf.pop(0)
+        if self.done:
+            return False, None
+        try:
+            return True, next(self.source)
+        except StopIteration:
+            self.done = True
+            return False, None
+
+    def force(self):
+        while not self.done:
+            try:
+                self.buf.append(next(self.source))
+            except StopIteration:
+                self.done = True
 
     def attr(self, a):
-        n = len(self.items)
-        return {"index": self.i + 1, "index0": self.i, "first": self.i == 0, "last": self.i == n - 1,
-                "length": n, "revindex": n - self.i, "revindex0": n - self.i - 1}.get(a, U())
+        if a in ("index", "index0"):
+            return self.i + (a == "index")
+        if a == "first":
+            return self.i == 0
+        self.force()
+        n = self.i + 1 + len(self.buf)
+        return {"last": self.i == n - 1, "length": n, "revindex": n - self.i, "revindex0": n - self.i - 1}.get(a, U())
 
 
 class _Break(Exception):
@@ -76,6 +102,13 @@ class _Break(Exception):
 
 class _Continue(Exception):
     pass
+
+
+class _Budget(Exception):
+    pass
+
+
+LIMIT = 60000
 
 
 NSCTOR = object()
@@ -107,11 +140,11 @@ def mentions(name, body):
             return True
         if k == "nsnew" and (name == "namespace" or any(ex(e) for _, e in s[2])):
             return True
-        if k == "setb" and (mentions(name, s[2]) or (len(s) > 3 and isinstance(s[3], tuple) and ex(s[3][1]))):
+        if k == "setb" and (mentions(name, s[2]) or (len(s) > 3 and isinstance(s[3], (tuple, list)) and ex(s[3][1]))):
             return True
         if k == "with" and (any(ex(e) for _, e in s[1]) or mentions(name, s[2])):
             return True
-        if k in ("filt", ) and mentions(name, s[2]):
+        if k in ("filt", ) and (mentions(name, s[2]) or (isinstance(s[1], (tuple, list)) and ex(s[1][1]))):
             return True
         if k == "macro" and mentions(name, s[3]):
             return True
@@ -129,6 +162,7 @@ class Ref:
         self.d = data
         self.priv = priv
         self.depth = 0
+        self.steps = 0
 
     # ------------------------------------------------------------ names
     def lookup(self, env, x):
@@ -154,12 +188,15 @@ class Ref:
             return tuple(self.ev(env, x) for x in e[1])
         if k == "cat":
             a, b = self.ev(env, e[1]), self.ev(env, e[2])
-            return str(a) + str(b)
+            return self.sized(str(a) + str(b))
         if k == "add":
             a, b = self.ev(env, e[1]), self.ev(env, e[2])
             if isinstance(a, U) or isinstance(b, U):
                 raise RefUndefinedError()
-            return a + b
+            r = a + b
+            if hasattr(r, "__len__") and len(r) > LIMIT:
+                raise _Budget()
+            return r
         if k == "attr":
             v = self.lookup(env, e[1])
             return self.getattr(v, e[2])
@@ -185,6 +222,21 @@ class Ref:
             return U()
 
     # ------------------------------------------------------------ statements
+    def apply_filter(self, f, text, inner):
+        """block filters: upper / lower / default(e) / replace('', e); the arguments are evaluated after the
+        body, in the block's own scope"""
+        if f == "u":
+            return text.upper()
+        if f == "l":
+            return text.lower()
+        v = self.ev(inner, f[1])
+        if f[0] == "rep":
+            v = str(v)
+            if len(v) * (len(text) + 1) > LIMIT:
+                raise _Budget()
+            return self.sized(text.replace("", v))      # python's own str.replace: the value between all characters
+        return text      # default(value, arg): the text is defined
+
     def call(self, f, args, caller):
         if isinstance(f, RMacro):
             if len(args) > len(f.params):
@@ -226,30 +278,43 @@ class Ref:
     def block(self, env, body):
         out = []
         for s in body:
-            out.append(self.stmt(env, s))
-        return "".join(out)
+            try:
+                out.append(self.stmt(env, s))
+            except (_Break, _Continue) as c:
+                # the text written so far in this iteration stays written
+                raise type(c)("".join(out) + c.args[0])
+        return self.sized("".join(out))
+
+    @staticmethod
+    def sized(text):
+        # programs whose text explodes (a loop doubling a string) are skipped before the engine sees them
+        if len(text) > LIMIT:
+            raise _Budget()
+        return text
 
     def run_loop(self, env, s, iterable, rec_depth=0):
         target, test, body, els = s[1], s[3], s[4], s[5]
         recursive = len(s) > 6 and s[6]
-        if isinstance(iterable, U):
-            items = []
-        else:
-            items = list(iter(iterable))
-        # the filter decides which items belong to the loop
-        kept = []
-        for item in items:
-            if test is not None:
-                sc = {}
-                self.assign([sc], target, item)
-                if not bool(self.ev([sc] + env, test)):
-                    continue
-            kept.append(item)
+        it = iter(()) if isinstance(iterable, U) else iter(iterable)
+
+        def source():
+            # the filter decides which items belong to the loop
+            for item in it:
+                if test is not None:
+                    sc = {}
+                    self.assign([sc], target, item)
+                    if not bool(self.ev([sc] + env, test)):
+                        continue
+                yield item
+
         out = []
-        lp = RLoop(kept, rec=(s, env) if recursive else None)
+        lp = RLoop(source(), rec=(s, env) if recursive else None)
         ran = False
-        for i, item in enumerate(kept):
-            lp.i = i
+        while True:
+            more, item = lp.pull()
+            if not more:
+                break
+            lp.i += 1
             sc = {}
             self.assign([sc], target, item)
             sc["loop"] = lp
@@ -268,6 +333,9 @@ class Ref:
 
     def stmt(self, env, s):
         k = s[0]
+        self.steps += 1
+        if self.steps > 60000:
+            raise _Budget()
         if k == "out":
             return "".join(str(self.ev(env, e)) for e in s[1])
         if k == "if":
@@ -320,13 +388,7 @@ class Ref:
             inner = [{}] + env
             text = self.block(inner, s[2])
             if len(s) > 3 and s[3] is not None:
-                f = s[3]
-                if f == "u":
-                    text = text.upper()
-                elif f == "l":
-                    text = text.lower()
-                else:
-                    self.ev(inner, f[1])      # default(value, arg): the text is defined, the argument is evaluated
+                text = self.apply_filter(s[3], text, inner)
             env[0][s[1]] = text
             return ""
         if k == "with":
@@ -336,8 +398,8 @@ class Ref:
                 sc[x] = v
             return self.block([sc] + env, s[2])
         if k == "filt":
-            t = self.block([{}] + env, s[2])
-            return t.upper() if s[1] == "u" else t.lower()
+            inner = [{}] + env
+            return self.apply_filter(s[1], self.block(inner, s[2]), inner)
         if k == "macro":
             env[0][s[1]] = RMacro("macro", s[1], s[2], s[3], env, mentions("caller", s[3]))
             return ""
@@ -358,6 +420,8 @@ class Ref:
             text = self.block([top], p)
         except (_Break, _Continue):
             return ("err", "loopcontrol-outside-loop")
+        except _Budget:
+            return ("skip",)
         except RefUndefinedError:
             return ("err", "UndefinedError")
         except RefRuntimeError:
@@ -366,8 +430,45 @@ class Ref:
             return ("err", "Fuel")
         except Exception as e:  # noqa
             return ("err", type(e).__name__)
-        ex = tuple(sorted((k, G.canon_repr(v)) for k, v in top.items() if not self.priv(k)))
+        ex = tuple(sorted((k, canon2(v)) for k, v in top.items() if not self.priv(k)))
         return ("ok", text, ex)
+
+
+_addr = re.compile(r" at 0x[0-9a-f]+", re.I)
+
+
+def canon2(v):
+    """exported value -> comparable text (exact type kept: a Markup / str subclass is not a str)"""
+    if type(v) is str:
+        return "'" + v + "'"
+    return _addr.sub("", repr(v))
+
+
+def norm_obs(o):
+    if o[0] == "ok":
+        return ("ok", _addr.sub("", o[1]), tuple((k, _addr.sub("", v)) for k, v in o[2]))
+    return o
+
+
+def real_render2(env, src, mk):
+    """like scope_gen.real_render; `mk()` builds fresh render arguments (generators are single-use)"""
+    try:
+        t = env.from_string(src)
+    except RecursionError:
+        return ("compile", "RecursionError")
+    except Exception as e:  # noqa
+        return ("compile", type(e).__name__ + ": " + str(e)[:80])
+    try:
+        text = t.render(**mk())
+    except Exception as e:  # noqa
+        n = type(e).__name__
+        return ("err", "Fuel" if n == "RecursionError" else n)
+    try:
+        mod = t.make_module(mk())
+        ex = tuple(sorted((k, canon2(v)) for k, v in mod.__dict__.items() if not k.startswith("_")))
+    except Exception as e:  # noqa
+        return ("err", "module:" + type(e).__name__)
+    return ("ok", text, ex)
 
 
 # ------------------------------------------------------------------ printers for the extended syntax
@@ -377,6 +478,16 @@ def e2_src(e):
     if e[0] in ("cat", "add"):
         return f"({e2_src(e[1])} {'~' if e[0] == 'cat' else '+'} {e2_src(e[2])})"
     return G.e_src(e)
+
+
+def f_src(f):
+    if f == "u":
+        return "upper"
+    if f == "l":
+        return "lower"
+    if f[0] == "rep":
+        return "replace('', " + e2_src(f[1]) + ")"
+    return "default(" + e2_src(f[1]) + ")"
 
 
 def tg_src(t):
@@ -419,7 +530,7 @@ def s2_src(s):
     if k == "setb":
         f = ""
         if len(s) > 3 and s[3] is not None:
-            f = " | upper" if s[3] == "u" else " | lower" if s[3] == "l" else " | default(" + e2_src(s[3][1]) + ")"
+            f = " | " + f_src(s[3])
         return "{% set " + s[1] + f + " %}" + p2_src(s[2]) + "{% endset %}"
     if k == "seta":
         return "{% set " + s[1] + "." + s[2] + " = " + e2_src(s[3]) + " %}"
@@ -428,7 +539,7 @@ def s2_src(s):
     if k == "with":
         return "{% with " + ", ".join(f"{x} = {e2_src(e)}" for x, e in s[1]) + " %}" + p2_src(s[2]) + "{% endwith %}"
     if k == "filt":
-        return "{% filter " + ("upper" if s[1] == "u" else "lower") + " %}" + p2_src(s[2]) + "{% endfilter %}"
+        return "{% filter " + f_src(s[1]) + " %}" + p2_src(s[2]) + "{% endfilter %}"
     if k == "macro":
         return "{% macro " + s[1] + "(" + ", ".join(s[2]) + ") %}" + p2_src(s[3]) + "{% endmacro %}"
     if k == "callo":
@@ -468,10 +579,30 @@ class IterOnly:
         return "IO" + repr(self.items)
 
 
+class OneShot:
+    """a single-use iterator with a stable text form (the text of a real generator carries its address)"""
+    def __init__(self, items):
+        self.it = iter(list(items))
+
+    def __iter__(self):
+        return self
+
+    def __next__(self):
+        return next(self.it)
+
+    def __repr__(self):
+        return "<oneshot>"
+
+
+def stable(dspec):
+    """the same render arguments with real generators / list iterators replaced by OneShot"""
+    return {k: ("oneshot", v[1]) if v[0] in ("gen", "iter") else v for k, v in dspec.items()}
+
+
 class AttrRaises:
     def __getattr__(self, name):
-        if name.startswith("__"):
-            raise AttributeError(name)
+        if name.startswith("_") or name.startswith("jinja_") or name in ("unsafe_callable", "alters_data"):
+            raise AttributeError(name)      # python / engine protocol probes see a plain object
         raise ValueError("attribute protocol raises")
 
     def __repr__(self):
@@ -496,6 +627,8 @@ def make_value(spec):
         return (x for x in spec[1])
     if k == "iter":
         return iter(list(spec[1]))
+    if k == "oneshot":
+        return OneShot(spec[1])
     if k == "gio":
         return GetItemOnly(list(spec[1]))
     if k == "io":
@@ -530,7 +663,7 @@ class EGen(G.SGen):
             return ("if", self.expr(1, in_loop), [(r.choice(["break", "continue"]),)], [], []), 2
         if k < 0.17:
             xs = r.sample(self.pool, 2)
-            e = ("tup", [self.expr(1, in_loop), self.expr(1, in_loop)]) if r.random() < 0.7 else ("n", self.name())
+            e = ("tup", [self.expr(1, in_loop), self.expr(1, in_loop)]) if r.random() < 0.85 else ("n", self.name())
             return ("set", xs, e), 1
         if depth > 0 and budget > 1 and k < 0.24:
             # tuple target / recursive loop
@@ -545,24 +678,58 @@ class EGen(G.SGen):
             if b > 0 and r.random() < 0.3:
                 els, b = self.block(b, depth - 1, in_loop and r.random() < 0.1, list(macros))
             test = self.expr(1, False) if r.random() < 0.2 else None
-            return ("for", tg, self.iterable(in_loop), test, body, els, rec), budget - b
-        if depth > 0 and budget > 1 and k < 0.28:
+            return ("for", tg, self.iterable(in_loop), test, body, strip_controls(els), rec), budget - b
+        if depth > 0 and budget > 1 and k < 0.32:
             b = budget - 1
             body, b = self.block(b, depth - 1, in_loop and r.random() < 0.2, list(macros))
-            f = r.choice(["u", "l", ("default", self.expr(1, in_loop))])
-            return ("setb", self.name(), body, f), budget - b
+            f = r.choice(["u", "l", ("default", self.expr(1, in_loop)), ("rep", self.expr(1, in_loop))])
+            if r.random() < 0.5:
+                return ("filt", f, strip_controls(body)), budget - b
+            return ("setb", self.name(), strip_controls(body), f), budget - b
         s, used = super().stmt(budget, depth, in_loop, macros)
+        if s[0] == "for":
+            s = s[:5] + (strip_controls(s[5]),) + s[6:]     # the else part is not inside this loop
         # loop controls must not end up inside a macro / call block / filter / set block of the loop
         if s[0] in ("macro", "callb", "filt", "setb"):
             s = strip_controls_stmt(s)
+        if s[0] == "filt" and r.random() < 0.5:
+            s = ("filt", ("rep", self.expr(1, in_loop)), s[2])
         return s, used
 
-    def dspec(self):
+    def program(self):
+        p = super().program()
+        r = self.r
+        if r.random() < 0.6:
+            # a name read in the HEADER of a scoped statement (the part the enclosing scope evaluates): one such
+            # statement of a random kind at a random top-level position
+            x, y = r.sample(self.pool, 2)
+            say = lambda e: ("out", [e])      # noqa
+            hdr = r.choice([
+                ("filt", ("rep", ("n", x)), [say(("s", "q"))]),
+                ("setb", y, [say(("s", "q"))], ("rep", ("n", x))),
+                ("with", [(y, ("n", x))], [say(("n", y))]),
+                ("for", y, ("n", x), None, [say(("n", y))], [say(("s", "none"))]),
+                ("for", y, ("s", "pq"), ("n", x), [say(("n", y))], []),
+                ("if", ("n", x), [say(("s", "t"))], [], [say(("s", "f"))]),
+                ("nsnew", y, [("v", ("n", x))]),
+                ("callo", x, []),
+            ])
+            p.insert(r.randint(0, len(p)), hdr)
+            if hdr[0] in ("setb", "nsnew"):
+                p.append(say(("n", y)) if hdr[0] == "setb" else say(("attr", y, "v")))
+        # late assignments, at the end of the top-level scope, of names used earlier (every position a name can
+        # be read in is followed by a later store of that name in the same scope)
+        for x in self.pool:
+            if self.r.random() < 0.3 and mentions(x, p):
+                p.append(("set", x, self.expr(1)) if self.r.random() < 0.7 else ("setb", x, [("out", [self.expr(1)])]))
+        return p
+
+    def dspec(self, avoid=()):
         r = self.r
         d = {}
         for x in self.pool:
             k = r.random()
-            if k < 0.2:
+            if k < 0.2 or x in avoid:
                 continue
             if k < 0.35:
                 d[x] = ("plain", r.choice([0, 1, 5, -2, True, False, 1.5, 2.0]))
@@ -579,12 +746,107 @@ class EGen(G.SGen):
             elif k < 0.88:
                 d[x] = ("dict", [("v", r.randint(0, 3)), ("w", "dw")][: r.randint(1, 2)])
             elif k < 0.92:
-                d[x] = (r.choice(["gen", "iter"]), [r.randint(0, 3) for _ in range(r.randint(0, 3))])
+                d[x] = (r.choice(["gen", "iter", "oneshot"]), [r.randint(0, 3) for _ in range(r.randint(0, 3))])
             elif k < 0.97:
                 d[x] = (r.choice(["gio", "io"]), [r.randint(0, 3) for _ in range(r.randint(0, 3))])
             else:
                 d[x] = ("ar",)
         return d
+
+
+def unsafe_names(p):
+    """names whose read can hit the recorded finding C03-rbw-inner-scope (a frame initialises the name with
+    `missing` because it assigns it without having read it, and an inner scope reads it before the assignment):
+    computed from the text alone, conservatively —
+      (a) assigned (not as a parameter / loop target / with target) anywhere inside a nested scope, or
+      (b) assigned at the top level, not read at the top level before that (a top-level read makes the frame
+          resolve the name from the context), and read inside a nested scope at or before the assigning
+          statement.
+    The generator leaves these names out of the render arguments (the streams over the Coq AST explore that
+    boundary with the exact guard)."""
+    inner_st, unsafe = set(), set()
+    root_loaded, inner_loaded, root_stored = set(), set(), set()
+
+    def ex(e, acc):
+        k = e[0]
+        if k == "n":
+            acc.add(e[1])
+        elif k in ("cat", "add"):
+            ex(e[1], acc), ex(e[2], acc)
+        elif k == "attr":
+            acc.add(e[1])
+        elif k == "tup":
+            for x in e[1]:
+                ex(x, acc)
+
+    def tg(t):
+        return [t] if isinstance(t, str) else list(t)
+
+    def store(x, root):
+        if not root:
+            inner_st.add(x)
+        elif x not in root_stored:
+            root_stored.add(x)
+            if x not in root_loaded and x in inner_loaded:
+                unsafe.add(x)
+
+    def walk(body, root, branch=False):
+        # root: statements of the top-level frame; branch: inside an if at the top level (reads there do not
+        # count as top-level reads: branches are analysed on copies of the symbol table)
+        ld = (set() if branch else root_loaded) if root else inner_loaded
+        for s in body:
+            k = s[0]
+            if k == "out":
+                for e in s[1]:
+                    ex(e, ld)
+            elif k == "if":
+                ex(s[1], ld)
+                walk(s[2], root, root), walk(s[3], root, root), walk(s[4], root, root)
+            elif k == "for":
+                ex(s[2], ld)
+                if s[3] is not None:
+                    ex(s[3], inner_loaded)
+                walk(s[4], False), walk(s[5], False)
+            elif k == "loopcall":
+                ex(s[1], ld)
+            elif k == "set":
+                ex(s[2], ld)
+                for x in tg(s[1]):
+                    store(x, root)
+            elif k == "seta":
+                ld.add(s[1]), ex(s[3], ld)
+            elif k == "nsnew":
+                for _, e in s[2]:
+                    ex(e, ld)
+                store(s[1], root)
+            elif k == "setb":
+                walk(s[2], False)
+                if len(s) > 3 and isinstance(s[3], (tuple, list)):
+                    ex(s[3][1], inner_loaded)
+                store(s[1], root)
+            elif k == "with":
+                for _, e in s[1]:
+                    ex(e, inner_loaded)
+                walk(s[2], False)
+            elif k == "filt":
+                if isinstance(s[1], (tuple, list)):
+                    ex(s[1][1], ld)      # the enclosing frame records this read (FrameSymbolVisitor.visit_FilterBlock)
+                walk(s[2], False)
+            elif k == "macro":
+                walk(s[3], False)
+                store(s[1], root)
+            elif k == "callo":
+                ld.add(s[1])
+                for e in s[2]:
+                    ex(e, ld)
+            elif k == "callb":
+                ld.add(s[2])
+                for e in s[3]:
+                    ex(e, ld)
+                walk(s[4], False)
+
+    walk(p, True)
+    return inner_st | unsafe
 
 
 def strip_controls(p):
@@ -606,3 +868,58 @@ def strip_controls_stmt(s):
     if k == "callb":
         return ("callb", s[1], s[2], s[3], strip_controls(s[4]))
     return s
+
+
+def rename2(p, m):
+    """consistent renaming of variables (extended syntax); loop / caller / namespace stay"""
+    f = lambda x: m.get(x, x)      # noqa
+
+    def ex(e):
+        k = e[0]
+        if k == "n":
+            return ("n", f(e[1]))
+        if k in ("cat", "add"):
+            return (k, ex(e[1]), ex(e[2]))
+        if k == "attr":
+            return ("attr", f(e[1]), e[2])
+        if k == "tup":
+            return ("tup", [ex(x) for x in e[1]])
+        return e
+
+    def tg(t):
+        return f(t) if isinstance(t, str) else [f(x) for x in t]
+
+    def st(s):
+        k = s[0]
+        if k == "out":
+            return ("out", [ex(e) for e in s[1]])
+        if k == "if":
+            return ("if", ex(s[1]), rename2(s[2], m), [st(e) for e in s[3]], rename2(s[4], m))
+        if k == "for":
+            return ("for", tg(s[1]), ex(s[2]), None if s[3] is None else ex(s[3]), rename2(s[4], m), rename2(s[5], m)) + tuple(s[6:])
+        if k == "loopcall":
+            return ("loopcall", ex(s[1]))
+        if k == "set":
+            return ("set", tg(s[1]), ex(s[2]))
+        if k == "seta":
+            return ("seta", f(s[1]), s[2], ex(s[3]))
+        if k == "nsnew":
+            return ("nsnew", f(s[1]), [(a, ex(e)) for a, e in s[2]])
+        if k == "setb":
+            flt = s[3] if len(s) > 3 else None
+            if isinstance(flt, (tuple, list)):
+                flt = (flt[0], ex(flt[1]))
+            return ("setb", f(s[1]), rename2(s[2], m), flt)
+        if k == "with":
+            return ("with", [(f(x), ex(e)) for x, e in s[1]], rename2(s[2], m))
+        if k == "filt":
+            return ("filt", (s[1][0], ex(s[1][1])) if isinstance(s[1], (tuple, list)) else s[1], rename2(s[2], m))
+        if k == "macro":
+            return ("macro", f(s[1]), [f(x) for x in s[2]], rename2(s[3], m))
+        if k == "callo":
+            return ("callo", f(s[1]), [ex(e) for e in s[2]])
+        if k == "callb":
+            return ("callb", [f(x) for x in s[1]], f(s[2]), [ex(e) for e in s[3]], rename2(s[4], m))
+        return s
+
+    return [st(s) for s in p]
